@@ -35,7 +35,7 @@ from engines.common import AnalysisError, Ctx
 META = dict(
     category='other',
     text='R1/R2 are decided exactly (automata equivalence over all Unicode strings, finite unit tables by constant folding); R3 is a '
-         'concrete-evaluation lint: the parse arithmetic is interpreted by our own evaluator on ~15k accepted spellings per function '
+         'concrete-evaluation lint: the parse arithmetic is interpreted by our own evaluator on several thousand accepted spellings per function '
          'and compared with exact rational arithmetic, plus a float-taint explanation.  R3 is not exhaustive over all decimals '
          '(unless the arithmetic is float-free), hence level other.',
     note='Trusted: CPython ast/re._parser; IEEE-754 double arithmetic of the running interpreter as the model of Python float; '
@@ -477,13 +477,20 @@ class _EvalRaise(Exception):
 def _candidates(resource: str, units: List[str]) -> List[Tuple[str, str, Optional[str]]]:
     """(text, number, unit) - accepted spellings the arithmetic is evaluated on."""
     nums: List[str] = []
-    for i in range(0, 4):
-        nums.append(str(i))
-        for w in (1, 2, 3):
-            for d in range(10 ** w):
-                nums.append(f'{i}.{d:0{w}d}')
-    nums += [str(k) for k in range(4, 2051)]
-    nums += ['.5', '.001', '007', '16', '1.0005', '0.0015', '0.0001', '1.0000000000000000001', '9007199254740993', '0.30000000000000004',
+    if resource == 'cpu':
+        for i in range(0, 4):
+            nums.append(str(i))
+            for w in (1, 2, 3):
+                nums += [f'{i}.{d:0{w}d}' for d in range(10 ** w)]
+        nums += [str(k) for k in range(4, 2051)]
+    else:
+        for i in range(0, 3):
+            nums.append(str(i))
+            for w in (1, 2):
+                nums += [f'{i}.{d:0{w}d}' for d in range(10 ** w)]
+        nums += [f'0.{d:03d}' for d in range(1000)]
+        nums += [str(k) for k in range(3, 65)]
+    nums += ['.5', '.001', '007', '1.0005', '0.0015', '0.0001', '1.0000000000000000001', '9007199254740993', '0.30000000000000004',
              '123456789.123456789']
     out = []
     for n in nums:
@@ -549,7 +556,7 @@ def _check_exactness(ctx: Ctx, p: ParseFn, units: List[str]) -> int:
             why = ''
             if evalr.float_calls:
                 why = (' - the decimal text goes through binary float(): the product/quotient is rounded before '
-                       + ('int() truncates' if p.resource == 'cpu' else 'math.ceil() rounds up') + ' it')
+                       + ('int() truncates it' if p.resource == 'cpu' else 'math.ceil() is applied'))
             ctx.bad('R3', cons, f'{len(bad)} of {rec["n"]} evaluated spellings give the wrong value, e.g. {ex}{why}', p.m.path,
                     st.lineno if st is not None else p.fn.lineno, extra=[list(map(str, b)) for b in bad[:10]])
         else:
@@ -705,7 +712,7 @@ def run(ctx: Ctx) -> None:
     ctx.rule('R1', 'client = server: validator language == parse-function language per resource (mode-aware); None iff no match; front-end '
                    'parse sites and defaults are covered; every other use of the patterns accepts the same language', 17)
     ctx.rule('R2', 'L(regex) == documented grammar [+]?(D+|D*.D+)unit?B? ; group 1 == unsigned decimal; group 2 == unit set == keys of '
-                   'conv_factor with values 1000^n/1024^n', 13)
+                   'conv_factor with values 1000^n/1024^n', 12)
     ctx.rule('R3', 'each value-returning statement of the parse functions yields floor(value*1000) mCPU / ceil(value*factor) bytes exactly '
                    '(own evaluator vs rational arithmetic on a family of accepted spellings)', 5)
     ctx.assume('Python float is IEEE-754 binary64 with round-to-nearest-even (the arithmetic of the running interpreter)')
